@@ -879,3 +879,42 @@ pub fn wide_union(r: &mut Rng) -> (Universe, Prob) {
     }
     (u, Prob { reqs, cons: vec![], soft: vec![] })
 }
+
+/// Permutations that spread every id space over a HUGE range (solvable ids beyond 2^16 and 2^17,
+/// names / version sets up to ~70 000): dense tables indexed by id, two-level tables, "small ids in
+/// an array, large ids in a map" hybrids and bit vectors all behave differently out there.
+/// Returns (packages, solvables, version sets, unions, strings).
+pub fn huge_perms(u: &Universe, r: &mut Rng) -> [Vec<u32>; 5] {
+    fn spread(r: &mut Rng, n: usize, limit: u64) -> Vec<u32> {
+        let mut seen = std::collections::BTreeSet::new();
+        let mut out = vec![];
+        while out.len() < n {
+            // a third of the ids stay small, a third land around powers of two, the rest anywhere
+            let x = match r.below(3) {
+                0 => r.below(300),
+                1 => {
+                    let p = 1u64 << (10 + r.below(8));
+                    (p + r.below(5)).saturating_sub(2).min(limit - 1)
+                }
+                _ => r.below(limit),
+            } as u32;
+            if seen.insert(x) {
+                out.push(x);
+            }
+        }
+        out
+    }
+    [spread(r, u.pkgs.len(), 70_000), spread(r, u.solvs.len(), 140_000), spread(r, u.vsets.len(), 70_000), spread(r, u.unions.len(), 3_000), spread(r, u.strings.len(), 3_000)]
+}
+
+/// A universe and several problems over it, renumbered with the same permutations.
+pub fn renumber_all(u: &Universe, problems: &[Prob], perms: &[Vec<u32>; 5]) -> (Universe, Vec<Prob>) {
+    let mut out_u = None;
+    let mut out_p = vec![];
+    for p in problems {
+        let (u2, p2) = u.renumber(p, &perms[0], &perms[1], &perms[2], &perms[3], &perms[4]);
+        out_u.get_or_insert(u2);
+        out_p.push(p2);
+    }
+    (out_u.unwrap_or_else(|| u.clone()), out_p)
+}
